@@ -39,4 +39,34 @@ PROPS = {
     ),
 }
 
+PROPS["C01"] = dict(
+    level="model_checking",
+    rule="each case = worklist policy x conflict detection on/off x operator "
+         "program (fan-out tree, acquire sets, pushes before/after the last "
+         "acquire, voluntary abort) x fake socket topology x thread count; "
+         "executions = all schedules with <= bound deviations from the base "
+         "schedule (iterative, fingerprint-pruned); oracle on every execution: "
+         "every item of the program's tree commits exactly once, nothing is "
+         "logged after for_each returned, the loop returns (no deadlock / "
+         "livelock / horizon); non-trivial = distinct trace hash among "
+         "executions with >= 1 deviation",
+    bound_note="per-cell bound_completed in coverage.cells",
+    assumptions=E1_ASSUME,
+    deadline=dict(quick=240, thorough=3000),
+    technique="stateless model checking of the implementation: exhaustive "
+              "deviation-bounded schedule enumeration (gsched) of for_each "
+              "over every shipped worklist policy",
+    level_text="every schedule with <= d deviations (d=1 quick, 1-2 thorough "
+               "per cell) of 1-3 worker threads running generated operator "
+               "programs through the real for_each executor, for 26 worklist "
+               "configurations, conflict detection on/off, on fake 1-3 socket "
+               "machines; exactly-once commit, no leaked pushes of aborted "
+               "attempts and termination are checked on each execution",
+    level_note="bounded: <=3 threads, <=6 items, <=2 lockables, deviation "
+               "bound per cell; SC values for atomics; switches at sync "
+               "operations and promoted racy accesses only",
+    design_ref="DESIGN.md 2, 7/C01",
+    parts=[dict(engine="e1", harness="c01_foreach")],
+)
+
 NOT_APPLICABLE = {}
